@@ -8,21 +8,34 @@ Part 1 (precedence, coercion, unknown names) - for EVERY option of the live DEFA
   * every subset of the sources that can set the option (file / env / CLI) with pairwise
     distinct values (strings, numbers), and additionally with the winning source carrying the
     built-in default while the losing sources carry something else;
-  * for booleans the full product {unset, true, false} x {unset, true, false} x {unset, flag};
+  * for booleans and the None-default switches the full product
+    {unset, true, false} x {unset, true, false} x {unset, flag};
   * every documented boolean spelling per source, numeric options incl. invalid text;
-  * unknown names in file / env / CLI, among them names of methods and private attributes;
-  * the same option given in the legacy `[redhat-access-insights]` section.
+  * falsy-but-real values: the empty string from file / env / CLI, 0 for the numeric options,
+    as winner over a non-empty lower source and as loser;
+  * glue: file values with % # ; = : quotes, inner and surrounding blanks, env values with
+    % # = quotes, `--opt=value` on the command line;
+  * the option in both the current and the legacy section (the current one wins), the legacy
+    section alone;
+  * every main case once more with load_all() called twice on the SAME object;
+  * histories in one process: a load that sets the option, then a load without sources must
+    give the built-in defaults, must leave DEFAULT_OPTS unchanged and the first object intact;
+  * unknown names in file / env / CLI / constructor, among them names of methods and private
+    attributes; `conf` chains (file -> conf, INSIGHTS_CONF); duplicate keys, key letter case.
   Oracle: the attribute is the (coerced) value of the highest-priority source that set it
-  (CLI > env > file > default), compared type-strictly; a ValueError is tolerated only when the
-  winning value differs from the default (weak reading: an option may refuse a value, e.g.
-  `--use-atomic`, but a source that lost must not influence the outcome).
+  (CLI > env > file > default), compared type-strictly; a ValueError is accepted only when the
+  constructor refuses the very same final value too (an option may refuse a value, e.g.
+  `--use-atomic`, but then the refusal does not depend on the source or on the losers).
 
 Part 2 (implications / conflicts) - the on/off product of the 17 options the statement names,
-each requested value written into one source.  Oracle: `load_all` raises ValueError, or the
-returned configuration satisfies every implication of the statement; the statement's
-"never combined with" pairs and host-name obfuscation without obfuscation always raise.
+each requested value written into one source (and the same product through the constructor),
+plus a sub-product with the options outside the 17 that the loader's implications touch
+(payload, content_type, app, manifest, compliance, ansible_host, no_gpg, gpg, legacy_upload).
+Oracle: `load_all` raises ValueError, or the returned configuration satisfies every implication
+of the statement and every option no stated implication rewrites has the requested value; the
+statement's "never combined with" pairs and host-name obfuscation without obfuscation raise.
 """
-import itertools
+import copy
 import os
 import sys
 
@@ -33,23 +46,29 @@ from harness import tmp
 ID = "C16"
 LEVEL = "exploration"
 RULE = ("part 1: for every option of the live DEFAULT_OPTS every subset of the sources able to set it "
-        "(file, INSIGHTS_* environment, command line) with pairwise distinct values, every documented boolean "
-        "spelling, valid and invalid numeric text, unknown / shadowing names, legacy section; non-trivial = at "
-        "least two sources carry different values for the option (a real precedence decision), a spelling that "
-        "changes the default, an unknown name actually delivered to the loader. part 2: every on/off assignment of "
-        "the statement's 17 options (quick: two 12-option sub-products) under each placement of the requested "
-        "values into sources; non-trivial = an antecedent of the statement (offline, output dir/file, "
-        "obfuscate_hostname) is requested")
+        "(file, INSIGHTS_* environment, command line) with pairwise distinct values, the winner carrying the default, "
+        "every documented boolean spelling, valid / invalid / zero numeric text, empty strings, glue characters, both "
+        "sections, load_all twice on one object, set-then-default histories in one process, unknown / shadowing names, "
+        "conf chains; non-trivial = at least two sources carry different values for the option (a real precedence "
+        "decision), or a single source changes the default, or an unknown name is actually delivered to the loader. "
+        "part 2: every on/off assignment of the statement's 17 options (quick: two 12-option sub-products) under each "
+        "placement of the requested values into sources and through the constructor, plus a 12-option sub-product of "
+        "the options the implications rewrite; non-trivial = an antecedent of the statement (offline, output "
+        "dir/file, obfuscate_hostname) is requested")
 ASSUMPTIONS = [
     "option metadata (names, defaults, CLI spellings, argparse action/type) is read from the live DEFAULT_OPTS; "
-    "the coercion reference (configparser boolean spellings for bool-default options in the file, true/false in the "
-    "environment, int/float for the three numeric options) is what the loader documents",
-    "boolean spellings a source does not document (INSIGHTS_X=1/yes, bool text for the None-default flags in the file) "
-    "are outside the alphabet or accepted either way",
+    "the coercion reference (configparser boolean spellings for every on/off option in the file, true/false in the "
+    "environment, int/float for the three numeric options, surrounding blanks stripped in the file) is what the "
+    "loader documents",
+    "boolean spellings the environment does not document (INSIGHTS_X=1/yes/empty) are outside the alphabet",
     "only one option is varied at a time in part 1 (plus the minimal background another option demands, e.g. "
     "obfuscate for obfuscate_hostname); every option is placed in exactly one source in part 2",
-    "the default configuration file /etc/insights-client/insights-client.conf is never read: --conf is always given "
-    "(the two `conf` cases without --conf are skipped when that file exists)",
+    "the default configuration file is never read: --conf is always given (the cases without --conf are skipped "
+    "when that file exists)",
+    "statement silent, oracle lenient: text that is not a number, duplicate keys in the file, keys in another "
+    "letter case, values of options that a loader implication outside the statement rewrites (content_type, "
+    "manifest, legacy_upload, gpg via no_gpg, keep_archive via no_upload, diagnosis via to_json+quiet), whether "
+    "INSIGHTS_CONF / a conf= line in the file make another file load",
     "messages printed by the loader (argparse usage on SystemExit) are discarded, not inspected",
 ]
 
@@ -57,22 +76,29 @@ STATEMENT_OPTS = ["offline", "no_upload", "register", "auto_update", "keep_archi
                   "checkin", "unregister", "check_results", "diagnosis", "to_json", "quiet", "output_dir",
                   "output_file", "obfuscate", "obfuscate_hostname"]
 VETOED = ["status", "test_connection", "checkin", "unregister", "check_results", "diagnosis", "to_json"]
-# options of the 17 that no implication ever rewrites: their final value is the requested one
-UNTOUCHED = ["offline", "status", "test_connection", "checkin", "unregister", "check_results", "quiet",
-             "obfuscate", "obfuscate_hostname"]
+EXTRA_OPTS = ["payload", "content_type", "app", "manifest", "compliance", "ansible_host", "no_gpg", "gpg",
+              "legacy_upload"]
+# options that no implication (stated or not) rewrites: the final value is the requested one, type-strictly
+STRICT_SAME = ["offline", "status", "test_connection", "checkin", "unregister", "check_results", "quiet",
+               "obfuscate", "obfuscate_hostname", "to_json", "payload", "app", "compliance", "ansible_host", "no_gpg"]
 # quick sub-products (12 options each); QA contains the whole offline group
 QA = ["offline", "no_upload", "register", "auto_update"] + VETOED + ["quiet"]
 QB = ["output_dir", "output_file", "keep_archive", "obfuscate", "obfuscate_hostname",
       "no_upload", "offline", "to_json", "quiet", "diagnosis", "register", "auto_update"]
 QB_ONLY = QB[:5]
+QC = EXTRA_OPTS + ["offline", "register", "output_file"]
 MIXED = ["offline"] + VETOED          # thorough: every option independently in file / env / CLI
+SPACES = {"QA": QA, "QB": QB, "QC": QC, "ALL": STATEMENT_OPTS}
 
-BOUNDS = {"quick": {"options": "all of DEFAULT_OPTS", "implication_subproducts": ["QA(12) x {cli-or-file, env}",
-                                                                                    "QB(12) x {cli-or-file, file}"],
+BOUNDS = {"quick": {"options": "all of DEFAULT_OPTS",
+                    "implication_subproducts": ["QA(12) x {cli-or-file, env}", "QB(12) x {cli-or-file, file}",
+                                                "QB x cli-or-file with load_all twice", "QC(12) x {cli-or-file, env}",
+                                                "QA x constructor {kwargs, dict}", "QB x constructor kwargs"],
                     "bool_spelling_product": False},
           "thorough": {"options": "all of DEFAULT_OPTS", "implication_product": "2^17 x {cli-or-file, env, file}",
-                       "mixed_placement": "4^8 over offline + 7 vetoed requests", "bool_spelling_product": True}}
-CAP_S = {"quick": 120, "thorough": 1500}
+                       "mixed_placement": "4^8 over offline + 7 vetoed requests", "bool_spelling_product": True,
+                       "plus": "everything of the quick tier except the QA/QB source sub-products"}}
+CAP_S = {"quick": 150, "thorough": 1500}
 
 FILE_TRUE = ["1", "yes", "true", "on"]
 FILE_FALSE = ["0", "no", "false", "off"]
@@ -80,10 +106,13 @@ FILE_SPELL = ["True", "False", "1", "0", "yes", "no", "true", "false", "on", "of
 ENV_SPELL = ["true", "false", "True", "False", "TRUE", "FALSE"]
 INT_BAD = ["abc", "", "1.5", "0x10"]
 FLOAT_BAD = ["abc", "", "1,5"]
+GLUE_FILE = ["p%40ss", "100%", "a#b", "a;b", "k=v", "a:b", "\"q\"", "it's", "in side", "  pad  ", "\\n\\t"]
+GLUE_ENV = ["p%40ss", "a#b", "k=v", "\"q\"", "in side"]
 UNKNOWN_NAMES = ["bogus", "no_schedule", "offline_mode", "load_all", "_load_env", "_update_dict", "_imply_options",
                  "_validate_options", "_cli_opts", "_init_attrs", "_print_errors", "__class__", "__dict__",
                  "__getitem__", ""]
 LEGACY = "redhat-access-insights"
+CURRENT = "insights-client"
 MARK = "c16-injected"
 
 INVALID = object()
@@ -111,7 +140,7 @@ def meta():
             elif type(d) is float:
                 kind = "float"
             elif spec.get("action") in ("store_true", "store_false"):
-                kind = "flag"                 # None-default switch: the file gives it as raw text
+                kind = "flag"                 # on/off switch whose built-in default is None
             else:
                 kind = "str"
             m[name] = {"kind": kind, "default": d, "opt": list(spec.get("opt", [])), "action": spec.get("action"),
@@ -127,6 +156,9 @@ def takes_value(mo):
 def _apps():
     from insights.specs.manifests import manifests
     return sorted(k for k, v in manifests.items() if v)
+
+
+SPECIAL_STR = ("compressor", "app", "module", "output_dir", "output_file", "conf")
 
 
 def str_values(name):
@@ -149,11 +181,12 @@ def str_values(name):
 
 
 def background(name):
-    """The minimal setting of ANOTHER option without which no value of `name` is accepted."""
+    """The minimal setting of ANOTHER option without which no value of `name` is accepted
+    (`kw` is the same setting for the constructor)."""
     if name == "obfuscate_hostname":
-        return {"env": {"INSIGHTS_OBFUSCATE": "true"}}
+        return {"env": {"INSIGHTS_OBFUSCATE": "true"}, "kw": {"obfuscate": True}}
     if name == "payload":
-        return {"argv": ["--content-type", "application/x-c16"]}
+        return {"argv": ["--content-type", "application/x-c16"], "kw": {"content_type": "application/x-c16"}}
     return None
 
 
@@ -161,7 +194,10 @@ def background(name):
 
 def model_file(mo, raw):
     k = mo["kind"]
-    if k == "bool":
+    raw = raw.strip()
+    if k in ("bool", "flag"):
+        # an on/off option written in the file is a boolean in any of configparser's spellings - also for the three
+        # switches whose built-in default is None (the statement quantifies over "boolean spellings" of every option)
         s = raw.lower()
         return [True] if s in FILE_TRUE else [False] if s in FILE_FALSE else INVALID
     if k == "int":
@@ -174,9 +210,6 @@ def model_file(mo, raw):
             return [float(raw)]
         except ValueError:
             return INVALID
-    if k == "flag" and raw.lower() in FILE_TRUE + FILE_FALSE:
-        # the file does not document a boolean spelling for these: raw text or the boolean, either is accepted
-        return [raw, raw.lower() in FILE_TRUE]
     return [raw]
 
 
@@ -204,6 +237,8 @@ def model_cli(mo, tokens):
         return [True]
     if mo["action"] == "store_false":
         return [False]
+    if len(tokens) == 1 and "=" in tokens[0] and tokens[0].startswith("--"):
+        tokens = tokens[0].split("=", 1)              # --opt=value
     if len(tokens) == 1:
         return [mo["const"]]              # nargs='?'
     if mo["type"] is int:
@@ -228,14 +263,18 @@ class _Sink(object):
         pass
 
 
-def load(conf_path, file_text, env, argv):
-    """One real load under controlled argv / environ / file. Returns (tag, config-or-message)."""
+def load(conf_path, file_text, env, argv, times=1, extra_files=None, keep=None):
+    """One real load under controlled argv / environ / file(s). Returns (tag, config-or-message).
+    times=2 calls load_all() twice on the same object."""
     cfgmod = _cfg()
     if file_text is not None:
         with open(conf_path, "w") as fh:
             fh.write(file_text)
     elif os.path.exists(conf_path):
         os.remove(conf_path)
+    for p, t in (extra_files or {}).items():
+        with open(p, "w") as fh:
+            fh.write(t)
     saved_argv = sys.argv
     saved_env = dict((k, v) for k, v in os.environ.items() if k.upper().startswith("INSIGHTS_"))
     saved_out, saved_err = sys.stdout, sys.stderr
@@ -246,7 +285,10 @@ def load(conf_path, file_text, env, argv):
         os.environ.update(env)
         sys.stdout = sys.stderr = _Sink()
         try:
-            return "ok", cfgmod.InsightsConfig().load_all()
+            cfg = cfgmod.InsightsConfig()
+            for _ in range(times):
+                cfg.load_all()
+            return "ok", cfg
         except ValueError as ex:
             return "ValueError", str(ex)[:200]
         except SystemExit as ex:
@@ -260,24 +302,51 @@ def load(conf_path, file_text, env, argv):
             if k.upper().startswith("INSIGHTS_"):
                 del os.environ[k]
         os.environ.update(saved_env)
+        for p in (extra_files or {}):
+            if os.path.exists(p):
+                os.remove(p)
+
+
+def construct(args, kwargs):
+    """The constructor channel: InsightsConfig(dict) / InsightsConfig(**kw) implies and validates too."""
+    cfgmod = _cfg()
+    saved_out, saved_err = sys.stdout, sys.stderr
+    try:
+        sys.stdout = sys.stderr = _Sink()
+        try:
+            return "ok", cfgmod.InsightsConfig(*args, **kwargs)
+        except ValueError as ex:
+            return "ValueError", str(ex)[:200]
+        except Exception as ex:
+            return "crash", "%s: %s" % (type(ex).__name__, str(ex)[:200])
+    finally:
+        sys.stdout, sys.stderr = saved_out, saved_err
 
 
 _BASE = None
 
 
-def baseline_attrs():
-    """Instance attributes a configuration legitimately has: what a fresh default instance has."""
+def empty_load(S):
+    conf = os.path.join(S, "c.conf")
+    return load(conf, "[%s]\n" % CURRENT, {}, ["--conf", conf])
+
+
+def baseline_attrs(S):
+    """Instance attributes a configuration legitimately has: the declared options plus whatever a load without
+    any setting leaves on the object (taken generically - no private name is spelled out here)."""
     global _BASE
     if _BASE is None:
-        cfgmod = _cfg()
-        _BASE = set(vars(cfgmod.InsightsConfig())) | set(cfgmod.DEFAULT_OPTS) | {"_cli_opts"}
+        tag, cfg = empty_load(S)
+        if tag != "ok":
+            raise RuntimeError("the default configuration does not load: %s %s" % (tag, cfg))
+        _BASE = set(vars(cfg)) | set(_cfg().DEFAULT_OPTS)
     return _BASE
 
 
-def structural(cfg):
+def structural(cfg, S):
     """Checked after EVERY successful load: only declared options are settings; methods intact."""
     out = []
-    extra = sorted(set(vars(cfg)) - baseline_attrs())
+    extra = sorted(set(vars(cfg)) - baseline_attrs(S))
     if extra:
         out.append(("unknown:becomes-setting", "no attribute outside DEFAULT_OPTS", extra, {"names": extra[:4]}))
     shadow = sorted(k for k in vars(cfg) if k in dir(type(cfg)))
@@ -303,11 +372,15 @@ def build_prec(case, S):
     conf = os.path.join(S, "c.conf")
     text = None
     if not case.get("noconf"):
-        lines = ["[%s]" % case.get("section", "insights-client")]
+        lines = ["[%s]" % case.get("section", CURRENT)]
         for k, v in sorted((bg.get("file") or {}).items()):
             lines.append("%s=%s" % (k, sub(v, S)))
         if case.get("file") is not None:
             lines.append("%s=%s" % (name, sub(case["file"], S)))
+        also = case.get("also")
+        if also:
+            other = ["[%s]" % also["section"], "%s=%s" % (name, sub(also["value"], S))]
+            lines = other + lines if also.get("first") else lines + other
         text = "\n".join(lines) + "\n"
     env = dict((k, sub(v, S)) for k, v in (bg.get("env") or {}).items())
     if case.get("env") is not None:
@@ -345,21 +418,26 @@ def check_prec(case, S):
     feats = {"opt": name, "kind": mo["kind"], "sources": srcs, "winner": winner}
     if case.get("section"):
         feats = {"section": case["section"], "coerced": mo["kind"] in ("bool", "int", "float")}
-    tag, got = load(*build_prec(case, S))
+    if case.get("also"):
+        feats["both_sections"] = True
+    if case.get("reload"):
+        feats["reload"] = True
+    conf, text, env, argv = build_prec(case, S)
+    tag, got = load(conf, text, env, argv, times=2 if case.get("reload") else 1)
     out = []
     invalid = [s for s, v in vals.items() if v is INVALID]
     distinct = len(set(repr(v) for v in vals.values())) > 1
     info = {"nontrivial": distinct, "tag": tag, "outcome": "prec:%s:%s:%s:%s" % (mo["kind"], srcs, winner, tag)}
-    clause_pfx = "file:legacy-section" if case.get("section") else None
-    if clause_pfx:
+    clause_pfx = "file:legacy-section" if case.get("section") else "file:both-sections" if case.get("also") else None
+    if case.get("section"):
         feats["error"] = got.split(":")[0] if tag == "crash" else "none"
 
     if tag == "crash":
         out.append((clause_pfx or "load:crash", "a configuration or ValueError", got, feats))
         return out, info
     if invalid:
-        # Weak reading for text that is not a number: the load is refused, or the bad source is ignored;
-        # the attribute never becomes text, and a valid higher-priority source still wins.
+        # Statement silent on text that is not a number / not a boolean: the load is refused, or the bad source is
+        # ignored; the attribute never becomes such text, and a valid higher-priority source still wins.
         info["outcome"] = "invalid:%s:%s:%s" % (mo["kind"], "+".join(sorted(invalid)), tag)
         info["nontrivial"] = True
         if tag == "SystemExit":
@@ -374,27 +452,41 @@ def check_prec(case, S):
             out.append(("numeric:invalid-text-becomes-value", "one of %r or an error" % (cands,), repr(val), feats))
         elif winner not in invalid and not any(same(val, c) for c in acc):
             out.append(("precedence:highest-source-wins", acc, repr(val), feats))
-        return out + structural(got), info
+        return out + structural(got, S), info
     if tag == "SystemExit":
         out.append(("load:unexpected-exit", "no exit: every command-line token is a declared option", got, feats))
         return out, info
     if name in ("output_dir", "output_file"):
-        acc = [os.path.abspath(a) if isinstance(a, str) else a for a in acc]
+        acc = [os.path.abspath(a) if isinstance(a, str) and a else a for a in acc]
     if tag == "ValueError":
-        # An option may refuse a value (unsupported switches, unknown app ...); but when the winning value IS the
-        # default, the sources that lost must not matter and the default configuration loads.
-        if any(same(a, mo["default"]) for a in acc):
-            out.append((clause_pfx or "precedence:losing-source-rejected",
-                        "load succeeds with %s=%r" % (name, mo["default"]), "ValueError: " + got, feats))
+        # An option may refuse a value (unsupported switches, unknown app, empty output dir ...). Whether a final
+        # value is refused is decided by the shared validation, which the constructor runs as well: the loader may
+        # only refuse what the constructor refuses for the same final value. Losing sources, the source that won
+        # and its spelling must not matter.
+        kw = dict((case.get("bg") or {}).get("kw") or {})
+        kw[name] = acc[0]
+        ctag, _ = construct((), kw)
+        if ctag == "ok":
+            out.append((clause_pfx or "precedence:value-refused",
+                        "load succeeds with %s=%r (the constructor accepts this value)" % (name, acc[0]),
+                        "ValueError: " + got, feats))
         return out, info
     val = getattr(got, name, "<missing>")
     if not any(same(val, a) for a in acc):
         clause = clause_pfx or ("coercion:single-source" if len(vals) == 1 and srcs != "none"
                                 else "precedence:highest-source-wins")
+        if winner == "file" and isinstance(val, str) and val == sub(case["file"], S).strip() and mo["kind"] != "str":
+            feats["got_raw_text"] = True
         out.append((clause, {"winner": winner, "acceptable": [repr(a) for a in acc]}, repr(val), feats))
+    try:
+        item = got[name]
+    except Exception as ex:
+        item = "raises %s" % type(ex).__name__
+    if not same(item, val):
+        out.append(("observe:item-access-differs", repr(val), repr(item), feats))
     if not same(val, mo["default"]):
         info["nontrivial"] = info["nontrivial"] or len(vals) == 1
-    return out + structural(got), info
+    return out + structural(got, S), info
 
 
 def _cli_forms(name, mo, value=None):
@@ -412,7 +504,7 @@ def _cli_forms(name, mo, value=None):
 
 
 def gen_prec(name, tier):
-    """All part-1 cases of one option (no duplicates)."""
+    """The main part-1 cases of one option (no duplicates)."""
     mo = meta()[name]
     kind = mo["kind"]
     bg = background(name)
@@ -478,16 +570,38 @@ def gen_prec(name, tier):
         for f in (None, vf):
             for e in (None, ve):
                 add(f, e, c)
+    if main:
+        for f in (None, vf):
+            add(f, None, ["%s=%s" % (main[0], vc)])                 # --opt=value
     # the winning source carries the built-in default, the losing ones something else
     if dtext is not None:
         if main and dtext != "":
-            dform = [main[0], dtext]
-            for f in (None, vf):
-                for e in (None, ve):
-                    add(f, e, dform)
+            for flag in mo["opt"]:
+                for f in (None, vf):
+                    for e in (None, ve):
+                        add(f, e, [flag, dtext])
         for f in (None, vf):
             add(f, dtext, None)
         add(dtext, None, None)
+    # falsy but real: the empty string / zero, winning over a lower source, losing against a higher one, alone
+    z = "0" if kind in ("int", "float") else ""
+    if z != dtext and name != "compressor":      # (an unsupported compressor falls back to the default: not a value)
+        add(z, None, None)
+        add(None, z, None)
+        add(vf, z, None)
+        add(z, ve, None)
+        if main:
+            add(None, None, [main[0], z])
+            add(vf, ve, [main[0], z])
+            add(z, z, main)
+            add(vf, None, [main[0], z])
+            add(None, ve, [main[0], z])
+    if kind in ("int", "float"):
+        for v in ("10", "100"):
+            add(v, None, None)
+            add(None, v, None)
+            if main:
+                add(None, None, [main[0], v])
     # text that is not a number, alone / below a valid source / above a valid source
     for b in bad:
         add(b, None, None)
@@ -499,25 +613,167 @@ def gen_prec(name, tier):
             add(b, None, main)
             add(None, b, main)
             add(vf, ve, [main[0], b])
+    # glue characters in free-text values
+    if kind == "str" and name not in SPECIAL_STR:
+        for g in GLUE_FILE:
+            add(g, None, None)
+        for g in GLUE_ENV:
+            add(None, g, None)
+            add("f%40." + name, g, None)
+        if main:
+            add(None, None, ["%s=k=v" % main[0]])
+            add(None, None, [main[0], "in side"])
     return cases
 
 
-def gen_legacy(name):
+def section_value(name, other=False):
+    mo = meta()[name]
+    if mo["kind"] == "bool":
+        v = not mo["default"]
+        return str(v if not other else not v)
+    if mo["kind"] == "int":
+        return "9" if other else "7"
+    if mo["kind"] == "float":
+        return "9.5" if other else "7.5"
+    return str_values(name)[1 if other else 0]
+
+
+def gen_sections(name):
+    """The option in the legacy section alone; in both sections (the current one wins), either order."""
+    mo = meta()[name]
+    if name == "conf" or mo["kind"] == "flag":
+        return []
+    cases = []
+    d = {"kind": "prec", "opt": name, "file": section_value(name), "env": None, "cli": None, "section": LEGACY}
+    if background(name):
+        d["bg"] = background(name)
+    cases.append(d)
+    for first in (False, True):
+        d = {"kind": "prec", "opt": name, "file": section_value(name), "env": None, "cli": None,
+             "also": {"section": LEGACY, "value": section_value(name, True), "first": first}}
+        if background(name):
+            d["bg"] = background(name)
+        cases.append(d)
+    return cases
+
+
+def gen_history(name):
+    """A load that sets the option through one source, then a load without sources in the same process."""
     mo = meta()[name]
     if name == "conf":
         return []
     if mo["kind"] in ("bool", "flag"):
-        raw = "False" if mo["default"] is True else "True"
+        f, e = str(not mo["default"]), str(not mo["default"]).lower()
     elif mo["kind"] == "int":
-        raw = "7"
+        f, e = "7", "5"
     elif mo["kind"] == "float":
-        raw = "7.5"
+        f, e = "7.5", "5"
     else:
-        raw = str_values(name)[0]
-    d = {"kind": "prec", "opt": name, "file": raw, "env": None, "cli": None, "section": LEGACY}
-    if background(name):
-        d["bg"] = background(name)
-    return [d]
+        f, e, _ = str_values(name)
+    firsts = [(f, None, None), (None, e, None)]
+    forms = _cli_forms(name, mo, "3" if mo["kind"] == "int" else str_values(name)[2]) if mo["opt"] else []
+    if forms:
+        firsts.append((None, None, forms[-1]))
+    out = []
+    for (ff, ee, cc) in firsts:
+        first = {"kind": "prec", "opt": name, "file": ff, "env": ee, "cli": cc}
+        if background(name):
+            first["bg"] = background(name)
+        out.append({"kind": "hist", "first": first})
+    return out
+
+
+def gen_option(name, tier):
+    main = gen_prec(name, tier)
+    cases = list(main)
+    # the same sources loaded twice into ONE object
+    seen = 0
+    for c in main:
+        if c.get("noconf"):
+            continue
+        if tier == "thorough" and meta()[name]["kind"] in ("bool", "flag") and seen >= 40:
+            break
+        seen += 1
+        cases.append(dict(c, reload=True))
+    cases += gen_sections(name)
+    cases += gen_history(name)
+    return cases
+
+
+# ---- part 1: histories in one process -------------------------------------------------------
+
+def _snapshot(cfg):
+    return dict((k, repr(v)) for k, v in vars(cfg).items())
+
+
+def check_defaults(S, feats):
+    """A load without any setting: every option has its built-in default (type-strictly)."""
+    out = []
+    tag, cfg = empty_load(S)
+    if tag != "ok":
+        return [("history:default-load-fails", "the default configuration loads", "%s: %s" % (tag, cfg), feats)], None
+    for name, mo in sorted(meta().items()):
+        if name == "conf":
+            continue
+        val = getattr(cfg, name, "<missing>")
+        if not same(val, mo["default"]):
+            out.append(("history:default-polluted", "%s=%r" % (name, mo["default"]), "%s=%r" % (name, val),
+                        dict(feats, opt=name)))
+    return out + structural(cfg, S), cfg
+
+
+def check_hist(case, S):
+    cfgmod = _cfg()
+    first = case["first"]
+    feats = {"first": first.get("opt") or first["kind"]}
+    before = copy.deepcopy(cfgmod.DEFAULT_OPTS)
+    if first["kind"] == "prec":
+        tag, a = load(*build_prec(first, S))
+    elif first["kind"] == "impl":
+        tag, a = load(*build_impl(first, S))
+    else:
+        tag, a = load(*build_heavy(first, S))
+    snap = _snapshot(a) if tag == "ok" else None
+    out, b = check_defaults(S, feats)
+    if cfgmod.DEFAULT_OPTS != before:
+        changed = sorted(k for k in set(before) | set(cfgmod.DEFAULT_OPTS)
+                         if before.get(k) != cfgmod.DEFAULT_OPTS.get(k))
+        out.append(("history:option-table-mutated", "DEFAULT_OPTS unchanged by a load", changed[:5], feats))
+    if snap is not None and _snapshot(a) != snap:
+        now = _snapshot(a)
+        changed = sorted(k for k in set(snap) | set(now) if snap.get(k) != now.get(k))
+        out.append(("history:first-object-changed-by-second-load", "first configuration untouched", changed[:5],
+                    feats))
+    info = {"nontrivial": tag == "ok", "tag": tag, "outcome": "hist:%s:%s" % (first["kind"], tag)}
+    return out, info
+
+
+def build_heavy(case, S):
+    """Every option at once through one source (non-default, acceptable values where there are any)."""
+    conf = os.path.join(S, "c.conf")
+    lines, env, argv = ["[%s]" % CURRENT], {}, ["--conf", conf]
+    skip = ("conf", "analyze_container", "analyze_file", "analyze_image_id", "analyze_mountpoint", "use_atomic",
+            "use_docker", "output_dir", "offline", "enable_schedule")
+    for name, mo in sorted(meta().items()):
+        if name in skip and not case.get("all"):
+            continue
+        if name == "conf":
+            continue
+        if mo["kind"] in ("bool", "flag"):
+            v = str(not mo["default"])
+        elif mo["kind"] == "int":
+            v = "7"
+        elif mo["kind"] == "float":
+            v = "7.5"
+        else:
+            v = sub(str_values(name)[0], S)
+        if case["src"] == "file":
+            lines.append("%s=%s" % (name, v))
+        elif case["src"] == "env":
+            env[env_key(name)] = v.lower() if mo["kind"] in ("bool", "flag") else v
+        elif mo["opt"]:
+            argv += [mo["opt"][0]] if not takes_value(mo) else [mo["opt"][0], v]
+    return conf, "\n".join(lines) + "\n", env, argv
 
 
 # ---- part 1: unknown names ------------------------------------------------------------------
@@ -528,10 +784,12 @@ def gen_unknown():
         if n:
             cases.append({"kind": "unknown", "name": n, "src": "file"})
         cases.append({"kind": "unknown", "name": n, "src": "env"})
+        cases.append({"kind": "unknown", "name": n, "src": "ctor"})
+        cases.append({"kind": "unknown", "name": n, "src": "update"})
     for n in ("bogus", "load_all"):
         cases.append({"kind": "unknown", "name": n, "src": "cli"})
-    cases.append({"kind": "unknown", "name": "*", "src": "file"})
-    cases.append({"kind": "unknown", "name": "*", "src": "env"})
+    for src in ("file", "env", "ctor", "update"):
+        cases.append({"kind": "unknown", "name": "*", "src": src})
     return cases
 
 
@@ -539,27 +797,45 @@ def check_unknown(case, S):
     cfgmod = _cfg()
     conf = os.path.join(S, "c.conf")
     names = [n for n in UNKNOWN_NAMES if n] if case["name"] == "*" else [case["name"]]
-    if case["src"] == "env" and case["name"] == "*":
+    if case["src"] != "file" and case["name"] == "*":
         names = list(UNKNOWN_NAMES)
-    lines, env, argv = ["[insights-client]", "username=f.username"], {}, ["--conf", conf]
-    if case["src"] == "file":
+    lines, env, argv = ["[%s]" % CURRENT, "username=f.username"], {}, ["--conf", conf]
+    src = case["src"]
+    feats = {"src": src, "name": case["name"]}
+    if src == "file":
         lines += ["%s=%s" % (n, MARK) for n in names]
-    elif case["src"] == "env":
+    elif src == "env":
         env = dict((env_key(n), MARK) for n in names)
-    else:
+    elif src == "cli":
         argv += ["--" + names[0].replace("_", "-")]
-    tag, got = load(conf, "\n".join(lines) + "\n", env, argv)
-    feats = {"src": case["src"], "name": case["name"]}
-    info = {"nontrivial": True, "tag": tag, "outcome": "unknown:%s:%s" % (case["src"], tag)}
+    text = "\n".join(lines) + "\n"
+    # the same load without the injected names: what the private bookkeeping of a configuration looks like
+    btag, base = load(conf, "[%s]\nusername=f.username\n" % CURRENT, {}, ["--conf", conf])
+    if src == "ctor":
+        inj = dict((n, MARK) for n in names)
+        inj["username"] = "f.username"
+        tag, got = construct((inj,), {})
+        btag, base = construct(({"username": "f.username"},), {})
+    else:
+        tag, got = load(conf, text, env, argv)
+        if src == "update" and tag == "ok":
+            upd = getattr(got, "_update_dict", None)       # not public: exercised only while it exists
+            if upd is None:
+                return [], {"nontrivial": False, "tag": "skipped", "outcome": "unknown:update:absent"}
+            try:
+                upd(dict((n, MARK) for n in names))
+            except Exception as ex:
+                tag, got = "crash", "%s: %s" % (type(ex).__name__, str(ex)[:200])
+    info = {"nontrivial": True, "tag": tag, "outcome": "unknown:%s:%s" % (src, tag)}
     out = []
     if tag == "crash":
         return [("load:crash", "a configuration or a rejection", got, feats)], info
     if tag != "ok":
-        if case["src"] != "cli":
+        if src != "cli":
             # the statement only says unknown names never become settings; refusing the load is also "never"
             info["nontrivial"] = False
         return out, info
-    out += structural(got)
+    out += structural(got, S)
     inst = vars(got)
     for n in names:
         if n in inst and inst[n] == MARK:
@@ -570,20 +846,134 @@ def check_unknown(case, S):
             iv = getattr(got, n)
             if not callable(iv) or getattr(iv, "__func__", None) is not cv:
                 out.append(("unknown:method-clobbered", "bound method %s" % n, repr(iv)[:80], dict(feats, hit=n)))
-    if got._print_errors is not False or not isinstance(got._init_attrs, list) or not isinstance(got._cli_opts, dict):
-        out.append(("unknown:private-attribute-overwritten", "_print_errors False, _init_attrs list, _cli_opts dict",
-                    repr((got._print_errors, type(got._init_attrs).__name__, type(got._cli_opts).__name__)), feats))
+    if btag == "ok":
+        for k, bv in vars(base).items():
+            if k.startswith("_") and k in inst and type(inst[k]) is not type(bv):
+                out.append(("unknown:private-attribute-overwritten", "%s stays a %s" % (k, type(bv).__name__),
+                            repr(inst[k])[:60], dict(feats, hit=k)))
+    if getattr(got, "username", None) != "f.username":
+        out.append(("unknown:known-option-lost", "username='f.username' next to the unknown names",
+                    repr(getattr(got, "username", None)), feats))
     return out, info
+
+
+# ---- part 1: conf chains, duplicate keys, letter case (mostly lenient) ----------------------
+
+def gen_misc():
+    cases = [{"kind": "conf", "variant": v} for v in ("cli+env", "env-only", "chain-both", "chain-only")]
+    for opt, val in (("username", "a"), ("offline", "True"), ("retries", "7")):
+        cases.append({"kind": "variant", "what": "dup-file", "opt": opt, "val": val})
+        cases.append({"kind": "variant", "what": "dup-file-same", "opt": opt, "val": val})
+        for style in ("Title", "UPPER"):
+            cases.append({"kind": "variant", "what": "case-file", "opt": opt, "val": val, "style": style})
+        for style in ("lower", "Title"):
+            cases.append({"kind": "variant", "what": "case-env", "opt": opt, "val": val, "style": style})
+        cases.append({"kind": "variant", "what": "spaced-file", "opt": opt, "val": val})
+        cases.append({"kind": "variant", "what": "colon-file", "opt": opt, "val": val})
+    for src in ("file", "env", "cli"):
+        cases.append({"kind": "hist", "first": {"kind": "heavy", "src": src}})
+        cases.append({"kind": "hist", "first": {"kind": "heavy", "src": src, "all": True}})
+    for s in ({"offline": "cli+", "register": "cli+"}, {"output_dir": "cli+", "keep_archive": "cli+"},
+              {"obfuscate": "file+", "obfuscate_hostname": "file+", "auto_update": "file-"}):
+        cases.append({"kind": "hist", "first": {"kind": "impl", "set": s}})
+    return cases
+
+
+def check_conf(case, S):
+    """Which file is THE configuration file. Strict where the statement decides (CLI > env > file for `conf`
+    itself; values of the file named on the command line), lenient about loading a second file."""
+    main, other = os.path.join(S, "c.conf"), os.path.join(S, "other.conf")
+    v = case["variant"]
+    dflt_conf = meta()["conf"]["default"]
+    feats = {"variant": v}
+    otext = "[%s]\nusername=o.username\n" % CURRENT
+    if v == "cli+env":
+        r = load(main, "[%s]\nusername=m.username\n" % CURRENT, {"INSIGHTS_CONF": other}, ["--conf", main],
+                 extra_files={other: otext})
+        want_conf, want_user = [main], ["m.username"]
+    elif v == "env-only":
+        if os.path.exists(dflt_conf):
+            return [], {"nontrivial": False, "tag": "skipped", "outcome": "skipped:default-conf-exists"}
+        r = load(main, None, {"INSIGHTS_CONF": other}, [], extra_files={other: otext})
+        want_conf, want_user = [other], [meta()["username"]["default"], "o.username"]
+    elif v == "chain-both":
+        r = load(main, "[%s]\nconf=%s\nusername=m.username\n" % (CURRENT, other), {}, ["--conf", main],
+                 extra_files={other: otext})
+        want_conf, want_user = [main], ["m.username"]
+    else:
+        r = load(main, "[%s]\nconf=%s\n" % (CURRENT, other), {}, ["--conf", main], extra_files={other: otext})
+        want_conf, want_user = [main], [meta()["username"]["default"], "o.username"]
+    tag, got = r
+    info = {"nontrivial": True, "tag": tag, "outcome": "conf:%s:%s" % (v, tag)}
+    if tag != "ok":
+        return [("load:crash" if tag == "crash" else "conf:load-refused", "a configuration", "%s: %s" % (tag, got),
+                 feats)], info
+    out = []
+    if not any(same(got.conf, w) for w in want_conf):
+        out.append(("precedence:highest-source-wins", "conf in %r" % (want_conf,), repr(got.conf),
+                    dict(feats, opt="conf")))
+    if not any(same(got.username, w) for w in want_user):
+        out.append(("conf:values-from-wrong-file", "username in %r" % (want_user,), repr(got.username), feats))
+    return out + structural(got, S), info
+
+
+def _style(name, style):
+    return {"Title": name.title(), "UPPER": name.upper(), "lower": name.lower()}[style]
+
+
+def check_variant(case, S):
+    """Statement silent (duplicate keys, other letter case, blanks / ':' around the delimiter): the value is the
+    given one or the default, nothing crashes, no new attribute appears."""
+    conf = os.path.join(S, "c.conf")
+    opt, val, what = case["opt"], case["val"], case["what"]
+    mo = meta()[opt]
+    given = model_file(mo, val)
+    allowed = list(given) + [mo["default"]]
+    lines, env = ["[%s]" % CURRENT], {}
+    strict = False
+    if what == "dup-file":
+        other = {"username": "b", "offline": "False", "retries": "9"}[opt]
+        lines += ["%s=%s" % (opt, val), "%s=%s" % (opt, other)]
+        allowed += model_file(mo, other)
+    elif what == "dup-file-same":
+        lines += ["%s=%s" % (opt, val), "%s=%s" % (opt, val)]
+    elif what == "case-file":
+        lines += ["%s=%s" % (_style(opt, case["style"]), val)]
+    elif what == "case-env":
+        env = {"%s_%s" % (_style("insights", case["style"]), _style(opt, case["style"])): val.lower()}
+    elif what == "spaced-file":
+        lines += ["%s = %s  " % (opt, val)]
+        strict = True                 # "key = value" is the form the shipped insights-client.conf documents
+    elif what == "colon-file":
+        lines += ["%s: %s" % (opt, val)]
+    tag, got = load(conf, "\n".join(lines) + "\n", env, ["--conf", conf])
+    feats = {"what": what, "opt": opt}
+    info = {"nontrivial": True, "tag": tag, "outcome": "variant:%s:%s" % (what, tag)}
+    if tag == "crash":
+        return [("load:crash", "a configuration or ValueError", got, feats)], info
+    if tag != "ok":
+        if strict:
+            return [("coercion:single-source", "%s=%r" % (opt, given[0]), "%s: %s" % (tag, got), feats)], info
+        return [], info
+    out = []
+    v = getattr(got, opt)
+    if strict:
+        allowed = given
+    if not any(same(v, a) for a in allowed):
+        out.append(("coercion:single-source" if strict else "variant:foreign-value", "one of %r" % (allowed,),
+                    repr(v), feats))
+    return out + structural(got, S), info
 
 
 # ---- part 2: implications and conflicts -----------------------------------------------------
 
+ON_VALUES = {"output_dir": "{S}/od", "output_file": "{S}/of.tar.gz", "payload": "c16-payload.tar.gz",
+             "content_type": "application/x-c16", "app": "malware-detection", "manifest": "c16-manifest.yaml",
+             "ansible_host": "c16.ansible.example"}
+
+
 def on_value(opt):
-    if opt == "output_dir":
-        return "{S}/od"
-    if opt == "output_file":
-        return "{S}/of.tar.gz"
-    return True
+    return ON_VALUES.get(opt, True)
 
 
 def place(opt, on, where):
@@ -592,30 +982,31 @@ def place(opt, on, where):
     if where == "A":
         src = "cli" if mo["opt"] else "file"
     else:
-        src = {"B": "env", "C": "file"}.get(where, where)
+        src = {"B": "env", "C": "file"}[where]
+    if not isinstance(on_value(opt), bool):
+        return src + "+" if on else None    # off = not given
     dflt_on = bool(mo["default"])
-    if on:
-        if where == "A" and dflt_on:
-            return None                     # default already on
-        return src + "+"
     if src == "cli":
-        return None if not dflt_on else "file-"
-    if opt in ("output_dir", "output_file"):
-        return None                         # off = not given
-    if src == "file" and mo["kind"] == "flag":
-        return None                         # no documented way to spell off in the file
-    if where == "A" and not dflt_on:
-        return None
-    return src + "-"
+        if mo["action"] == "store_false":
+            return None if on else "cli-"   # --no-gpg
+        return "cli+" if on else None
+    if where == "A" and on == dflt_on:
+        return None                         # already the default
+    if src == "file" and mo["kind"] == "flag" and not on:
+        return None                         # off = not given (see the finding about file text for these switches)
+    return src + ("+" if on else "-")
 
 
-def impl_case(opts, bits, where):
+def impl_case(opts, bits, where, reload=False):
     s = {}
     for k, opt in enumerate(opts):
         t = place(opt, bool(bits >> k & 1), where)
         if t:
             s[opt] = t
-    return {"kind": "impl", "set": s}
+    c = {"kind": "impl", "set": s}
+    if reload:
+        c["reload"] = True
+    return c
 
 
 def mixed_case(idx):
@@ -635,9 +1026,21 @@ def mixed_case(idx):
     return {"kind": "impl", "set": s}
 
 
+def ctor_case(opts, bits, via):
+    kw = {}
+    for k, opt in enumerate(opts):
+        on = bool(bits >> k & 1)
+        v = on_value(opt)
+        if isinstance(v, bool):
+            kw[opt] = on
+        elif on:
+            kw[opt] = v
+    return {"kind": "ctor", "kw": kw, "via": via}
+
+
 def build_impl(case, S):
     conf = os.path.join(S, "c.conf")
-    lines, env, argv = ["[insights-client]"], {}, ["--conf", conf]
+    lines, env, argv = ["[%s]" % CURRENT], {}, ["--conf", conf]
     for opt, tag in sorted(case["set"].items()):
         src, on = tag[:-1], tag.endswith("+")
         v = sub(on_value(opt), S) if on else False
@@ -647,45 +1050,49 @@ def build_impl(case, S):
             env[env_key(opt)] = v if isinstance(v, str) else ("true" if v else "false")
         else:
             flag = meta()[opt]["opt"][0]
-            argv += [flag] if v is True else [flag, v]
+            argv += [flag] if isinstance(v, bool) else [flag, v]
     return conf, "\n".join(lines) + "\n", env, argv
 
 
-def requested(case):
+def requested(case, S):
+    """Requested value of every option part 2 looks at: what the one source that carries it says, else the default."""
     req = {}
-    for opt in STATEMENT_OPTS:
+    for opt in STATEMENT_OPTS + EXTRA_OPTS:
+        if case["kind"] == "ctor":
+            req[opt] = sub(case["kw"][opt], S) if opt in case["kw"] else meta()[opt]["default"]
+            continue
         tag = case["set"].get(opt)
-        req[opt] = tag.endswith("+") if tag else bool(meta()[opt]["default"])
+        if tag is None:
+            req[opt] = meta()[opt]["default"]
+        elif tag.endswith("+"):
+            req[opt] = sub(on_value(opt), S)
+        else:
+            req[opt] = False
     return req
 
 
-def check_impl(case, S):
-    req = requested(case)
-    tag, got = load(*build_impl(case, S))
+def judge(req, tag, got, feats, S):
+    """The statement, evaluated on one load outcome."""
     out = []
-    srcs = sorted(set(t[:-1] for t in case["set"].values()))
     hit = [v for v in VETOED if req[v]]
     conflict = None
     if req["offline"] and hit:
         conflict = "offline+" + hit[0]
     elif req["obfuscate_hostname"] and not req["obfuscate"]:
         conflict = "obfuscate_hostname-without-obfuscate"
-    antecedent = req["offline"] or req["output_dir"] or req["output_file"] or req["obfuscate_hostname"]
-    info = {"nontrivial": bool(antecedent), "tag": tag,
-            "outcome": "impl:%s:%d%d%d%d:%s" % (tag, req["offline"], bool(req["output_dir"] or req["output_file"]),
-                                                req["obfuscate_hostname"], bool(conflict), "+".join(srcs))}
-    feats = {"sources": "+".join(srcs)}
     if tag == "crash":
-        return [("load:crash", "a configuration or ValueError", got, feats)], info
+        return [("load:crash", "a configuration or ValueError", got, feats)], conflict
     if tag == "SystemExit":
-        return [("load:unexpected-exit", "no exit: every command-line token is a declared option", got, feats)], info
+        return [("load:unexpected-exit", "no exit: every command-line token is a declared option", got, feats)], conflict
     if tag == "ValueError":
-        return out, info
+        return out, conflict
     c = got
     if conflict:
-        out.append(("conflict:not-rejected", "ValueError for %s" % conflict, "load_all returned a configuration",
+        out.append(("conflict:not-rejected", "ValueError for %s" % conflict, "a configuration was returned",
                     dict(feats, conflict=conflict)))
-    if req["offline"] or c.offline:
+    offline = bool(req["offline"] or c.offline)
+    output = bool(req["output_dir"] or req["output_file"] or c.output_dir or c.output_file)
+    if offline:
         if not c.no_upload:
             out.append(("offline:upload-enabled", "no_upload true", repr(c.no_upload), feats))
         if c.register:
@@ -696,22 +1103,62 @@ def check_impl(case, S):
             if getattr(c, v):
                 out.append(("offline:combined-with-network-request", "%s false or ValueError" % v,
                             "%s=%r" % (v, getattr(c, v)), dict(feats, request=v)))
-    if req["output_dir"] or req["output_file"] or c.output_dir or c.output_file:
+    if output:
         if not c.no_upload:
             out.append(("output:upload-enabled", "no_upload true", repr(c.no_upload), feats))
         if c.keep_archive:
             out.append(("output:archive-retained", "keep_archive false", repr(c.keep_archive), feats))
     if c.obfuscate_hostname and not c.obfuscate:
         out.append(("obfuscate:hostname-without-obfuscate", "obfuscate true", repr(c.obfuscate), feats))
-    for opt in UNTOUCHED:
-        if getattr(c, opt) is not req[opt]:
-            out.append(("precedence:multi-option", "%s=%r" % (opt, req[opt]), "%s=%r" % (opt, getattr(c, opt)),
-                        dict(feats, opt=opt)))
+
+    def differs(opt, why):
+        out.append(("precedence:multi-option", "%s=%r (%s)" % (opt, req[opt], why), "%s=%r" % (opt, getattr(c, opt)),
+                    dict(feats, opt=opt)))
+    # options nothing rewrites take the requested value, type-strictly
+    for opt in STRICT_SAME:
+        if not same(getattr(c, opt), req[opt]):
+            differs(opt, "never rewritten")
+    # targets of the STATED implications take the requested value whenever the antecedent is absent
+    if not offline and not output and c.no_upload is not req["no_upload"]:
+        differs("no_upload", "neither offline nor an output target")
+    if not offline:
+        for opt in ("register", "auto_update"):
+            if getattr(c, opt) is not req[opt]:
+                differs(opt, "not offline")
+    if req["keep_archive"] and not output and not c.keep_archive:
+        differs("keep_archive", "no output target")
+    if not (req["to_json"] and req["quiet"]) and bool(c.diagnosis) != bool(req["diagnosis"]):
+        differs("diagnosis", "as requested")
     for opt in ("output_dir", "output_file"):
-        if req[opt] and getattr(c, opt) != os.path.abspath(sub(on_value(opt), S)):
-            out.append(("precedence:multi-option", "%s given" % opt, "%s=%r" % (opt, getattr(c, opt)),
-                        dict(feats, opt=opt)))
-    return out + structural(c), info
+        if req[opt] and getattr(c, opt) != os.path.abspath(req[opt]):
+            differs(opt, "full path of the given one")
+        if not req[opt] and getattr(c, opt):
+            differs(opt, "not given")
+    return out + structural(c, S), conflict
+
+
+def check_impl(case, S):
+    req = requested(case, S)
+    if case["kind"] == "ctor":
+        kw = dict((k, sub(v, S)) for k, v in case["kw"].items())
+        tag, got = construct((kw,), {}) if case["via"] == "dict" else construct((), kw)
+        srcs = ["ctor-" + case["via"]]
+    else:
+        conf, text, env, argv = build_impl(case, S)
+        tag, got = load(conf, text, env, argv, times=2 if case.get("reload") else 1)
+        srcs = sorted(set(t[:-1] for t in case["set"].values()))
+    feats = {"sources": "+".join(srcs)}
+    if case.get("reload"):
+        feats["reload"] = True
+    out, conflict = judge(req, tag, got, feats, S)
+    antecedent = req["offline"] or req["output_dir"] or req["output_file"] or req["obfuscate_hostname"]
+    extra = any(req[o] != meta()[o]["default"] for o in EXTRA_OPTS)
+    info = {"nontrivial": bool(antecedent), "tag": tag,
+            "outcome": "impl:%s:%d%d%d%d%d:%s" % (tag, bool(req["offline"]),
+                                                   bool(req["output_dir"] or req["output_file"]),
+                                                   bool(req["obfuscate_hostname"]), bool(conflict), extra,
+                                                   "+".join(srcs))}
+    return out, info
 
 
 # ---- dispatch, units, replay ----------------------------------------------------------------
@@ -719,63 +1166,80 @@ def check_impl(case, S):
 def check_case(case, S):
     k = case["kind"]
     if k == "prec":
-        if case.get("noconf") and os.path.exists(_cfg().constants.default_conf_file):
+        if case.get("noconf") and os.path.exists(meta()["conf"]["default"]):
             return [], {"nontrivial": False, "tag": "skipped", "outcome": "skipped:default-conf-exists"}
         return check_prec(case, S)
     if k == "unknown":
         return check_unknown(case, S)
-    if k == "impl":
+    if k in ("impl", "ctor"):
         return check_impl(case, S)
+    if k == "hist":
+        return check_hist(case, S)
+    if k == "conf":
+        return check_conf(case, S)
+    if k == "variant":
+        return check_variant(case, S)
     raise ValueError(k)
 
 
-def _impl_units(space, opts, where, per):
-    n = 1 << len(opts)
-    return [{"part": "impl", "space": space, "where": where, "lo": lo, "hi": min(n, lo + per)}
-            for lo in range(0, n, per)]
+def _range_units(part, n, per, **kw):
+    return [dict(kw, part=part, lo=lo, hi=min(n, lo + per)) for lo in range(0, n, per)]
 
 
 def units(tier, seed):
     names = sorted(meta())
-    us = [{"part": "prec", "opts": ch} for ch in enumx.chunks(names, 27 if tier == "quick" else 41)]
+    us = [{"part": "prec", "opts": ch} for ch in enumx.chunks(names, 41)]
     us.append({"part": "unknown"})
-    us.append({"part": "legacy"})
+    us.append({"part": "misc"})
+    us += _range_units("impl", 1 << len(QC), 512, space="QC", where="A")
+    us += _range_units("impl", 1 << len(QC), 512, space="QC", where="B")
+    us += _range_units("impl", 1 << len(QB), 512, space="QB", where="A", reload=True)
+    us += _range_units("ctor", 1 << len(QA), 2048, space="QA", via="kwargs")
+    us += _range_units("ctor", 1 << len(QA), 2048, space="QA", via="dict")
+    us += _range_units("ctor", 1 << len(QB), 2048, space="QB", via="kwargs")
     if tier == "quick":
         for space, where in (("QA", "A"), ("QA", "B"), ("QB", "A"), ("QB", "C")):
-            us += _impl_units(space, QA if space == "QA" else QB, where, 256)
+            us += _range_units("impl", 1 << len(SPACES[space]), 256, space=space, where=where)
     else:
         for where in ("A", "B", "C"):
-            us += _impl_units("ALL", STATEMENT_OPTS, where, 1024)
-        us += [{"part": "mixed", "lo": lo, "hi": lo + 1024} for lo in range(0, 4 ** len(MIXED), 1024)]
+            us += _range_units("impl", 1 << len(STATEMENT_OPTS), 1024, space="ALL", where=where)
+        us += _range_units("mixed", 4 ** len(MIXED), 1024)
     return us
 
 
 def unit_weight(u):
     if u["part"] in ("impl", "mixed"):
-        return u["hi"] - u["lo"]
-    return 300
+        return (u["hi"] - u["lo"]) * (2 if u.get("reload") else 1)
+    if u["part"] == "ctor":
+        return 50
+    return 600
 
 
 def unit_cases(unit, tier):
     part = unit["part"]
     if part == "prec":
         for name in unit["opts"]:
-            for c in gen_prec(name, tier):
+            for c in gen_option(name, tier):
                 yield c
     elif part == "unknown":
         for c in gen_unknown():
             yield c
-    elif part == "legacy":
-        for name in sorted(meta()):
-            for c in gen_legacy(name):
-                yield c
+    elif part == "misc":
+        for c in gen_misc():
+            yield c
     elif part == "impl":
-        opts = {"QA": QA, "QB": QB, "ALL": STATEMENT_OPTS}[unit["space"]]
-        only = [opts.index(o) for o in QB_ONLY] if unit["space"] == "QB" else None
+        opts = SPACES[unit["space"]]
+        only = None
+        if unit["space"] == "QB" and unit["where"] == "A" and not unit.get("reload") and tier == "quick":
+            only = [opts.index(o) for o in QB_ONLY]
         for bits in range(unit["lo"], unit["hi"]):
-            if only is not None and unit["where"] == "A" and not any(bits >> k & 1 for k in only):
+            if only is not None and not any(bits >> k & 1 for k in only):
                 continue                    # already enumerated by the QA sub-product
-            yield impl_case(opts, bits, unit["where"])
+            yield impl_case(opts, bits, unit["where"], bool(unit.get("reload")))
+    elif part == "ctor":
+        opts = SPACES[unit["space"]]
+        for bits in range(unit["lo"], unit["hi"]):
+            yield ctor_case(opts, bits, unit["via"])
     elif part == "mixed":
         for idx in range(unit["lo"], unit["hi"]):
             c = mixed_case(idx)
@@ -794,6 +1258,8 @@ def run_unit(unit, tier):
                      sample=case if (info["nontrivial"] and res.evals % 97 == 0) else None)
             res.stat("loads_" + case["kind"])
             res.stat("outcome_" + info["tag"])
+            if case.get("reload"):
+                res.stat("loaded_twice_on_one_object")
             for v in vio:
                 res.violation(v[0], case, v[1], v[2], v[3] if len(v) > 3 else {})
     res.maxi("options_enumerated", len(meta()))
@@ -808,16 +1274,19 @@ def replay(case):
 
 
 TECHNIQUE = ("bounded exhaustive enumeration of option assignments over the real sources (argv, INSIGHTS_* environment, "
-             "a per-case configuration file) executed against the real loader; precedence against a per-source coercion "
-             "reference, implications as invariants of every successful load")
+             "a per-case configuration file) and the constructor, executed against the real loader; precedence against a "
+             "per-source coercion reference, implications as invariants of every successful load")
 LEVEL_TEXT = ("Every option of the live DEFAULT_OPTS is set through every subset of the sources that can carry it, with every "
-              "documented boolean spelling and valid / invalid numeric text, and the attribute of the returned configuration "
-              "is compared type-strictly with the highest-priority source; unknown and shadowing names are injected through "
-              "file, environment and command line. The full on/off product of the 17 options named by the statement (2^17, "
-              "three placements, plus 4^8 mixed placements of the offline group; quick: two 12-option sub-products) is loaded "
-              "and every successful load is checked against every implication, every stated conflict must raise. "
-              "Exploration is the right level: the loader is a pure function of (argv, environ, file) and the space is a "
-              "finite product.")
+              "documented boolean spelling, valid / zero / invalid numeric text, empty strings and glue characters, in "
+              "either or both file sections, loaded once and twice into one object and followed by a default load in the "
+              "same process; the attribute of the returned configuration is compared type-strictly with the "
+              "highest-priority source; unknown and shadowing names are injected through file, environment, command line "
+              "and constructor. The full on/off product of the 17 options named by the statement (2^17, three placements, "
+              "plus 4^8 mixed placements of the offline group; quick: two 12-option sub-products), the same product through "
+              "the constructor and a sub-product with the nine further options the implications rewrite are loaded; every "
+              "successful load is checked against every implication and against the requested values, every stated "
+              "conflict must raise. Exploration is the right level: the loader is a pure function of (argv, environ, "
+              "file) and the space is a finite product.")
 LEVEL_NOTE = ("Trusted: argparse / configparser of the standard library, the per-source coercion reference written from the "
-              "loader's documentation. Part 1 varies one option at a time; interactions of more than the 17 named options "
-              "(payload, app, compliance ...) are not enumerated in part 2. Undocumented boolean spellings are excluded.")
+              "loader's documentation. Part 1 varies one option at a time. Lenient where the statement is silent (listed in "
+              "the assumptions). Undocumented environment boolean spellings are excluded.")
